@@ -415,7 +415,13 @@ def stepOld (st0 : St) (ts : List String) : St × String :=
       | none => (st, "err nosession")
     | none => (st, "bad-op")
   | ["r", k] => match k.toNat? with
-    | some k => readSess st fun h => let r := hread h k; ({ st with sess := some r.2 }, showBytes r.1)
+    | some k =>
+      -- read(p, n) is offered in every mode but "r+": through a writer it returns nothing and sets the error indicator
+      match st.sess with
+      | none => (st, "err nosession")
+      | some h =>
+        if h.mode == .rw then (st, "err mode") else
+        let r := hread h k; ({ st with sess := some r.2 }, showBytes r.1)
     | none => (st, "bad-op")
   | ["rl"] =>
     -- readLine(String&) and end() are offered in every mode but "r+": after a failed read end() must say so
@@ -506,6 +512,8 @@ def stepOld (st0 : St) (ts : List String) : St × String :=
   | ["xtext", b] => match parseBytes b with
     | some bs => let d := st.disk.set 0 (some bs); ({ st with disk := d }, textStr d 0)
     | none => (st, "bad-op")
+  -- NOTE: xdirend, xdircopy, xdirrlc and xdirlines below are CONSTANTS of this driver (the model has no directories and no
+  -- failing reads of a source): they make K re-check the repairs 9eba4eb, 95952ce, 4bfeeba, bbbf8e1 on the real library, nothing more.
   | ["xwend", b] => match parseBytes b with
     | some bs =>
       -- the documented idiom on an object that has just written: `while (!f.end()) f.readLine();`
